@@ -307,6 +307,11 @@ def method(ex, base, name, e, st):
             return Coll(base.dom)
         if name == "values" and base.items is not None:
             return [v for _, v in base.items]
+        if name == "values":
+            def mem(y, d=base):
+                x = ctx.fresh_name("dv")
+                return z3.Exists([x], z3.And(d.dom(x), y == d.val(x).term))
+            return Coll(mem, is_list=True)
         raise Unsupported("dict." + name)
     if isinstance(base, NodeAttrView) and name == "get":
         from pyvc.exec import MaybeType
@@ -419,4 +424,32 @@ def new_circuit(ex, st, e):
 
 
 def relabel_nodes(ex, st, e):
-    raise Unsupported("nx.relabel_nodes (model not enabled for this function)")
+    """nx.relabel_nodes(G, mapping) (copy=True): a NEW graph whose nodes are m(x) for x in G (m(x) = mapping[x] when x is
+    a key, else x), with the attributes of x and the edges mapped.  Assumed contract; requires m injective on the nodes
+    of G (otherwise networkx merges nodes) -- that requirement is emitted as an obligation at the call site."""
+    ctx = ex.ctx
+    used("networkx.relabel_nodes(copy=True)")
+    args, kwargs = ex.args_of(e, st)
+    if kwargs.get("copy", True) is not True:
+        raise Unsupported("relabel_nodes(copy=False)")
+    G = st.g(args[0])
+    mp = args[1]
+    if not isinstance(mp, DictV) or mp.items is not None:
+        raise Unsupported("relabel_nodes with an explicit dict")
+    m = lambda x: z3.If(mp.dom(x), mp.val(x).term, x)
+    x, y, u, v = ctx.fresh_name("rx"), ctx.fresh_name("ry"), ctx.fresh_name("ru"), ctx.fresh_name("rv")
+    ex.oblige(st, "relabel_nodes-mapping-injective-on-nodes", z3.ForAll([x, y], z3.Implies(z3.And(G.node(x), G.node(y), m(x) == m(y)), x == y)),
+              "pre-of-callee", getattr(e, "lineno", None))
+    st.pc.append(z3.ForAll([x, y], z3.Implies(z3.And(G.node(x), G.node(y), m(x) == m(y)), x == y)))
+    N = define_set(ex, st, lambda t: z3.Exists([x], z3.And(G.node(x), t == m(x))), "rl_N")
+    FI = define_fi(ex, st, lambda a, b: z3.Exists([u, v], z3.And(G.edge(u, v), a == m(u), b == m(v))), "rl_FI")
+    pick = z3.Function(f"relabel_source!{next(ctx._n)}", ctx.Name, ctx.Name)
+    st.pc.append(z3.ForAll([y], z3.Implies(z3.Select(N, y), z3.And(G.node(pick(y)), m(pick(y)) == y))))
+    hasty = define_set(ex, st, lambda t: z3.And(z3.Select(N, t), z3.Select(G.hasty, pick(t))), "rl_hasty")
+    hasout = define_set(ex, st, lambda t: z3.And(z3.Select(N, t), z3.Select(G.hasout, pick(t))), "rl_hasout")
+    ty = ctx.fresh("rl_ty", G.ty.sort())
+    out = ctx.fresh("rl_out", G.out.sort())
+    for ax in (z3.ForAll([y], z3.Select(ty, y) == z3.Select(G.ty, pick(y))), z3.ForAll([y], z3.Select(out, y) == z3.Select(G.out, pick(y)))):
+        ctx.def_ids.add(ax.get_id())
+        st.pc.append(ax)
+    return ObjRef(alloc(st, Graph(N, hasty, ty, hasout, out, FI), "graph"), "DiGraph")
